@@ -35,6 +35,24 @@ PROPS = {
         trusted_base=[SHA, CODEC],
         assumptions=[],
     ),
+    "C02": dict(
+        level="proof",
+        lean=["Rio.Props.C02"],
+        engines=["rt"],
+        classes=["roundtrip-id", "roundtrip-tree", "setgid-inherit", "panic-pack"],
+        rule='rt: seeded random filesets (tar: dirs, files, symlinks, fifos, block/char devices; zip: dirs, files, symlinks; odd byte names, setuid/setgid/sticky on files and dirs, ids to 2^32-1, pre-1970 / post-2038 / sub-second mtimes, empty and multi-KiB files) materialised on the real filesystem in a random creation order; real Pack into file:// or ca+file:// -> Scan of the stored ware -> Unpack with lossless filters in a random placement mode (direct/copy/none/mount, private mount namespace, overlayfs) -> independent raw lstat/readlink/read walk of the result vs the logical fileset (all attributes incl. directory mtimes) -> re-Pack; source tree snapshot before/after pack; parent-mtime check; cache shelf and temp-dir check. Every id is also predicted by the Lean pack model. Distinct = distinct wareIDs.',
+        trusted_base=[SHA, CODEC, KERNEL],
+        assumptions=["no concurrent third-party writers in the source or target trees"],
+    ),
+    "C20": dict(
+        level="proof",
+        lean=["Rio.Props.C20"],
+        engines=["rt"],
+        classes=["pack-mutates-source", "scan-creates-files", "warehouse-mutated"],
+        rule='rt: seeded random filesets (tar: dirs, files, symlinks, fifos, block/char devices; zip: dirs, files, symlinks; odd byte names, setuid/setgid/sticky on files and dirs, ids to 2^32-1, pre-1970 / post-2038 / sub-second mtimes, empty and multi-KiB files) materialised on the real filesystem in a random creation order; real Pack into file:// or ca+file:// -> Scan of the stored ware -> Unpack with lossless filters in a random placement mode (direct/copy/none/mount, private mount namespace, overlayfs) -> independent raw lstat/readlink/read walk of the result vs the logical fileset (all attributes incl. directory mtimes) -> re-Pack; source tree snapshot before/after pack; parent-mtime check; cache shelf and temp-dir check. Every id is also predicted by the Lean pack model. Distinct = distinct wareIDs.',
+        trusted_base=[KERNEL],
+        assumptions=["atime is not part of the property (reading a file may update it on a non-noatime mount)"],
+    ),
     "C12": dict(
         level="proof",
         lean=["Rio.Props.C12"],
